@@ -45,8 +45,8 @@ ChunksIn(s, mint, maxt) == { c \in PRange(s.chunks) : ChunkOverlaps(c, mint, max
 (* "exactly the series ... and chunk contents ... for chunks overlapping that range": the       *)
 (* answer as a set of [ls, chunks]; the same label set in several blocks is one series with     *)
 (* the union of the chunks.                                                                      *)
-Hits(blocks, q) == { <<b, s>> \in { <<b, s>> \in UNION { {b} \X b.series : b \in blocks } : TRUE } :
-                        Selected(b, s, q.ms) /\ ChunksIn(s, q.mint, q.maxt) # {} }
+Hits(blocks, q) == { h \in UNION { {b} \X b.series : b \in blocks } :
+                        Selected(h[1], h[2], q.ms) /\ ChunksIn(h[2], q.mint, q.maxt) # {} }
 Select(blocks, q) ==
     LET hits == Hits(blocks, q)
         lss == { FullLs(h[1], h[2]) : h \in hits }
@@ -116,7 +116,8 @@ UnionRem(series, n, g) == UNION { P(series, n, v) : v \in g.rem }
 ExpandNames(series, ms, lazy) ==
     IF ms = {} \/ NoneSelected(series, ms) THEN {}
     ELSE LET ns == Names(ms)
-             g(n) == GroupOf(series, ms, n)
+             gf == [nn \in ns |-> GroupOf(series, ms, nn)]      \* evaluated once
+             g(n) == gf[n]
              kept == { n \in ns : g(n).add # {} \/ g(n).rem # {} }          \* groups without keys are dropped
              allRequested == \E n \in ns : g(n).all
              hasAdds == \E n \in ns : g(n).add # {}
@@ -135,7 +136,8 @@ ExpandNames(series, ms, lazy) ==
 LazyChoices(series, ms) ==
     IF ms = {} \/ NoneSelected(series, ms) THEN {{}}
     ELSE LET ns == Names(ms)
-             g(n) == GroupOf(series, ms, n)
+             gf == [nn \in ns |-> GroupOf(series, ms, nn)]      \* evaluated once
+             g(n) == gf[n]
              kept == { n \in ns : g(n).add # {} \/ g(n).rem # {} }
              adders == { n \in kept : g(n).add # {} }
          IN  IF adders = {} \/ Cardinality(kept) < 2 THEN {{}}
